@@ -78,6 +78,13 @@ varintWidth varintPFORComputeThreshold(const uint64_t *values, uint32_t count,
     /* Calculate exception marker */
     uint64_t marker = varintPFORCalculateMarker(width);
 
+    /* The largest regular offset must stay below the marker, otherwise an
+     * in-range value would be read back as an exception placeholder. */
+    if (range == marker && width < VARINT_WIDTH_64B) {
+        width++;
+        marker = varintPFORCalculateMarker(width);
+    }
+
     /* Count exceptions - values above threshold percentile */
     uint32_t exceptionCount = 0;
     for (uint32_t i = 0; i < count; i++) {
@@ -306,6 +313,7 @@ uint64_t varintPFORGetAt(const uint8_t *src, uint32_t index,
         exceptionPtr += w1 + w2;
     }
 
-    /* Should not reach here if data is valid */
-    return 0;
+    /* Not in the exception list: an 8-byte offset equal to the marker is a
+     * regular value. */
+    return meta->min + offset;
 }
